@@ -163,7 +163,18 @@ def run(ctx):
 
         got = {k: variant_built(v) for k, v in table.items()}
         want = {USIZE_MAX: "Shared", 0: "Borrowed", "otherwise": "Owned"}
-        ok = recognised and got == want
+        # nothing but the capacity decides the kind (a length of 0 says nothing about who owns the allocation)
+        other_deps = []
+        for i in range(b.n):
+            t = b.term(i)
+            if t["k"] == "switch":
+                d = strip_sym(sy.operand(t["discr"]))
+                txt = repr(d)
+                if ("'0'" in txt or sym_is_call(d, "cow::Metadata::len") or "Metadata::len" in txt) and "'1'" not in txt and "capacity" not in txt:
+                    other_deps.append(sym_str(d)[:60])
+        ok = recognised and got == want and not other_deps
+        if other_deps:
+            got = dict(got, also_depends_on=other_deps)
         chk.ob("C14.a", f"{kindf.path}", ok, "capacity usize::MAX -> Shared, 0 -> Borrowed, otherwise Owned" if ok else f"kind() decodes {got}, expected {want}", kindf.loc())
     for name, want in (("shared", ("p0", USIZE_MAX)), ("borrowed", ("p0", 0)), ("owned", ("p0", "p1"))):
         f = one_method(chk, "C14.a", m, MD, name)
